@@ -62,11 +62,17 @@ func dceFollower(kind int) []Stmt {
 		return []Stmt{&Return{X: B("||", I("q"), I("x"))}}
 	case 10:
 		return []Stmt{&Return{X: &Cond{C: I("p"), T: B("&&", I("q"), I("x")), F: I("x")}}}
+	case 11: // the jump of a short-circuit / conditional lands directly on the RETURN; the other operand is undefined
+		return []Stmt{&Return{X: B("||", I("x"), Undef())}}
+	case 12:
+		return []Stmt{&Return{X: &Cond{C: I("p"), T: I("x"), F: Undef()}}}
+	case 13:
+		return []Stmt{&Return{X: B("&&", I("q"), Undef())}}
 	}
 	return nil
 }
 
-const dceFollowers = 11
+const dceFollowers = 14
 
 // DcePlacements lists where the function body is placed.
 // "nested": the body stands in an outer function after a nested function literal that holds the same body plus
